@@ -240,7 +240,11 @@ class Executor(StmtMixin, ExprMixin, CallMixin, LibMixin):
                     self.oblige(p, f"must-raise:{exc}", sv.Not(cond(pre)), fi.node, assume=False)
                 if c.ensures is not None:
                     post = c.ensures(ctx, val)
-                    self.oblige(p, "post", post, fi.node, assume=False)
+                    if isinstance(post, dict):
+                        for cname, cform in post.items():
+                            self.oblige(p, f"post[{cname}]", cform, fi.node, assume=False)
+                    else:
+                        self.oblige(p, "post", post, fi.node, assume=False)
             elif kind == RAISE:
                 allowed = None
                 for exc in sorted(c.raises):
